@@ -1575,7 +1575,7 @@ int tls_record_recv(uint8_t *record, size_t *recordlen, tls_socket_t sock)
 int tls_seq_num_incr(uint8_t seq_num[8])
 {
 	int i;
-	for (i = 7; i > 0; i--) {
+	for (i = 7; i >= 0; i--) {
 		seq_num[i]++;
 		if (seq_num[i]) break;
 	}
